@@ -115,6 +115,10 @@ def family():
         "defaults")
     add("rec_defaults2", _rec("Dflt2", [f("s", "string", default="dd"), f("r", "int"),
                                         f("e", _enum("De"), default="B")]), "defaults")
+    # record branches that a datum can match without supplying any of their fields
+    add("union_rec_alldefault", ["null", _rec("Opts", [f("level", "int", default=3), f("tag", "string", default="t")])],
+        "union", "defaults", "unionrec")
+    add("union_empty_rec", ["int", _rec("Emp", []), "string"], "union", "unionrec", "zero")
     # an enum that declares a default symbol (a reader-side attribute: writing/validating must not be affected by it)
     add("enum_default", dict(_enum("Edf"), default="B"), "named", "enumdefault")
     add("rec_enum_default", _rec("Red", [f("e", dict(_enum("Edr"), default="A")), f("u", ["null", "Edr"]), f("k", "int")]),
